@@ -177,25 +177,27 @@ class DryRunRenamer:
         destination_path: Path,
         override: bool = False,
     ) -> None:
+        # Relative paths are interpreted against the current working directory
+        # (as the real renamers do), so virtual state is keyed by absolute paths
+        source_key = Path(os.path.abspath(source_path))
+        destination_key = Path(os.path.abspath(destination_path))
         source_exists = (
-            os.path.lexists(source_path) or source_path in self.created_paths
-        ) and source_path not in self.removed_paths
+            os.path.lexists(source_path) or source_key in self.created_paths
+        ) and source_key not in self.removed_paths
         if not source_exists:
             raise FileNotFoundError(f"No such file or directory: {source_path}")
 
         destination_exists = (
             os.path.lexists(destination_path)
-            or destination_path in self.created_paths
-        ) and destination_path not in self.removed_paths
+            or destination_key in self.created_paths
+        ) and destination_key not in self.removed_paths
         if destination_exists and not override:
-            raise FileExistsError(
-                f"Destination file already exists: {destination_path}"
-            )
+            raise DestinationAlreadyExistsError(source_path, destination_path)
 
-        self.removed_paths.add(source_path)
-        self.created_paths.add(destination_path)
-        self.removed_paths.discard(destination_path)
-        self.created_paths.discard(source_path)
+        self.removed_paths.add(source_key)
+        self.created_paths.add(destination_key)
+        self.removed_paths.discard(destination_key)
+        self.created_paths.discard(source_key)
 
 
 class PrintingRenamerWrapper:
